@@ -585,9 +585,24 @@ func runC08(c *fw.Ctx, idx int) fw.Result {
 	}
 	refTxt := gen.RefFasta("root", in.Ref, gen.PickLineWidth(r, len(in.Ref)))
 	qTxt, tTxt := gen.RenderFasta(in.Queries, gen.PickLineWidth(r, len(in.Ref))), gen.RenderFasta(in.Targets, gen.PickLineWidth(r, len(in.Ref)))
-	out, err := run.TopRanking(qTxt, tTxt, refTxt, "fasta", "fasta", o)
+	// the inputs as alignments or as the CSV that `updown list` makes of them: the same neighbours
+	qForm, tForm, qIn, tIn := "fasta", "fasta", qTxt, tTxt
+	if idx%4 == 1 {
+		if fw.Mix(uint64(idx)+3)%3 != 0 {
+			if csv, e := run.UpdownList(refTxt, tTxt); e == nil {
+				tForm, tIn = "csv", csv
+			}
+		}
+		if fw.Mix(uint64(idx)+5)%3 == 0 {
+			if csv, e := run.UpdownList(refTxt, qTxt); e == nil {
+				qForm, qIn = "csv", csv
+			}
+		}
+		res.Count("cases_with_csv_input", 1)
+	}
+	out, err := run.TopRanking(qIn, tIn, refTxt, qForm, tForm, o)
 	res.Evals++
-	files := map[string]string{"ref.fasta": refTxt, "query.fasta": qTxt, "target.fasta": tTxt, "observed.csv": out}
+	files := map[string]string{"ref.fasta": refTxt, "query.fasta": qTxt, "target.fasta": tTxt, "observed.csv": out, "query_as_given." + qForm: qIn, "target_as_given." + tForm: tIn}
 	if err != nil {
 		res.Fail(mode+":error-on-valid-input", err.Error(), files, udArgv(o))
 		return res
